@@ -5,6 +5,8 @@
 ID=${1:?id}; NS=${2:-8}; N=${3:-25}
 ROOT="$(cd "$(dirname "$0")/.." && pwd)"
 BIN="$ROOT/build/checks.test"; [ "$ID" = C13 ] && BIN="$ROOT/build/netsim.test"
+# whole-node scenarios and the real-loops family run real goroutines whose interleaving is the Go scheduler's: excluded here
+export VERIF_NO_WHOLE=1
 export VERIF_ROOT="$ROOT" VERIF_NO_EVIDENCE=1 VERIF_MAX_SCENARIOS=$N VERIF_BUDGET_S=600
 D=$(mktemp -d /tmp/verif-det.XXXX); trap 'rm -rf $D' EXIT
 bad=0; total=0
